@@ -1,11 +1,13 @@
 import Driver.Reader
 import Driver.Mirror
+import Driver.Options
 open Driver
 
 def handle (line : String) : String :=
   match line.trimAscii.toString.splitOn " " with
   | ["reader", buf, ops] => readerLine buf ops
   | ["reader", buf] => readerLine buf ""
+  | ["options", env, file, args] => optionsLine env file args
   | ["mirror", proto, src, dst, port, max, payload] => mirrorLine proto src dst port max payload
   | _ => "bad-op"
 
